@@ -13,7 +13,7 @@
 #include <array>
 #include <vector>
 
-using boost::multiprecision::cpp_int;
+using cpp_int = boost::multiprecision::number<boost::multiprecision::cpp_int_backend<6400, 6400, boost::multiprecision::unsigned_magnitude, boost::multiprecision::unchecked, void>>;
 
 namespace c21ref {
 cpp_int MuMul(const cpp_int& a, const cpp_int& b);
